@@ -2,6 +2,7 @@ package codecchk
 
 import (
 	"bytes"
+	"encoding/binary"
 	"fmt"
 	"os"
 	"reflect"
@@ -80,8 +81,8 @@ func coverage(t *testing.T, st *vkit.Stats) []ctype {
 			missing = append(missing, f.Key())
 		}
 	}
-	st.Extra("types_found", nFound)
-	st.Extra("types_covered", len(types)-len(notCodec(types)))
+	// (text, not numbers: the driver adds numeric extras up over shards)
+	st.Extra("types_covered_of_found", fmt.Sprintf("%d / %d", len(types)-len(notCodec(types)), nFound))
 	st.Extra("types_excluded", excluded)
 	st.Extra("types_generic_skipped", generic)
 	if len(missing) > 0 {
@@ -336,7 +337,7 @@ func TestC08_RoundTrip(t *testing.T) {
 			low++
 		}
 	}
-	st.Extra("types_without_a_case_in_this_process", low)
+	st.Extra("types_without_a_case_in_this_process", fmt.Sprint(low))
 }
 
 func typeHasContainer(tp reflect.Type, depth int) bool {
@@ -370,6 +371,20 @@ func roundTrip(t *rapid.T, st *vkit.Stats, cmp *valgen.Cmp, c ctype, perType map
 	b1, err := enc(x)
 	if err != nil {
 		fail("encode-error", "a generated value does not encode: %v", err)
+	}
+	if sv, ok := x.(*state.State); ok {
+		// the documented fixed layout (chaincore/state/state.go): 32 hash bytes, then round, balance, nonce as
+		// little-endian 64-bit words
+		want := append([]byte{}, sv.TxnHashBytes...)
+		for _, w := range []uint64{uint64(sv.Round), uint64(sv.Balance), uint64(sv.Nonce)} {
+			var le [8]byte
+			binary.LittleEndian.PutUint64(le[:], w)
+			want = append(want, le[:]...)
+		}
+		if !bytes.Equal(b1, want) {
+			fail("state-layout", "State does not encode to hash(32) | round | balance | nonce (little endian): %d bytes %x", len(b1), b1)
+		}
+		st.Class("state_fixed_layout_checked")
 	}
 	y := c.ctor()
 	left, err := dec(y, b1)
